@@ -26,6 +26,7 @@ func main() {
 		"C17lin": {Gen: genLin, Run: runLin},
 		// the same programs, fewer of them, for the harness binary built with -race
 		"C17race": {Gen: func(g *GenCtx) { raceTier = true; genLin(g) }, Run: runLin},
+		"C17dial": {Gen: genDial, Run: runDial},
 	})
 }
 
